@@ -233,6 +233,8 @@ class RefGen:
             return f"{t.__name__}({x})"
         if isinstance(t, type) and hasattr(t, "_deserialize") and hasattr(t, "_serialize"):
             return f"{self.bind(t)}._deserialize({x})"
+        if is_mixin_dataclass(o) and _args(t) and self.dataclass_call is not None:
+            return self.dataclass_call(self, t, x, "from")  # a specialised generic mixin class
         if is_mixin_dataclass(t):
             if self.dataclass_call is not None:
                 return self.dataclass_call(self, t, x, "from")
@@ -549,6 +551,8 @@ class RefGen:
             return x
         if isinstance(t, type) and hasattr(t, "_deserialize") and hasattr(t, "_serialize"):
             return f"{x}._serialize()"
+        if is_mixin_dataclass(o) and _args(t) and self.dataclass_call is not None:
+            return self.dataclass_call(self, t, x, "to")  # a specialised generic mixin class
         if is_mixin_dataclass(t):
             if self.dataclass_call is not None:
                 return self.dataclass_call(self, t, x, "to")
